@@ -378,6 +378,50 @@ func ruleFitSearchDiscipline(c *Ctx) {
 			}
 		}
 	}
+	// … and it starts with the rule right after the improved one: the index the nil is stored at is a loop variable
+	// initialised with index+1 (index+2 leaves the next rule's stale fit to be compared against)
+	for _, l := range loopsOf(cb) {
+		if !resetHeaders[l.header] {
+			continue
+		}
+		for b := range l.blocks {
+			for _, ins := range b.Instrs {
+				st, ok := ins.(*ssa.Store)
+				if !ok || !isNilConst(st.Val) {
+					continue
+				}
+				ia, ok := st.Addr.(*ssa.IndexAddr)
+				if !ok || !isLoadOf(ia.X, fits) {
+					continue
+				}
+				phi, isPhi := strip(ia.Index).(*ssa.Phi)
+				if !isPhi || phi.Block() != l.header {
+					continue // another loop shape: not judged
+				}
+				okStart, got := true, ""
+				for i, e := range phi.Edges {
+					if i < len(l.header.Preds) && l.blocks[l.header.Preds[i]] {
+						continue
+					}
+					bo, isAdd := strip(e).(*ssa.BinOp)
+					k, isC := int64(0), false
+					var base ssa.Value
+					if isAdd && bo.Op == token.ADD {
+						if k, isC = constInt(bo.Y); isC {
+							base = bo.X
+						} else if k, isC = constInt(bo.X); isC {
+							base = bo.Y
+						}
+					}
+					_, isParam := base.(*ssa.Parameter)
+					if !isAdd || !isC || k != 1 || !isParam {
+						okStart, got = false, e.String()
+					}
+				}
+				c.Check(okStart, rule, "first rule cleared by the reset loop of "+fnName(cb), "the reset starts at index+1, the rule right after the one that improved", P.instrPos(st), "starts at "+got)
+			}
+		}
+	}
 	resetLater := &calledEv{name: "later fits reset to nil (loop run)", match: func(x ssa.Instruction) bool {
 		return resetHeaders[x.Block()] && x == x.Block().Instrs[len(x.Block().Instrs)-1]
 	}}
@@ -634,6 +678,21 @@ func ruleClosedEnums(c *Ctx) {
 	excl := F(P.Func(plc, "isExclusiveLabel"))
 	c.atomRejects(rule, mlc, "store == nil ⇒ false", relMatcher("==", anyVal, isNilConst), boolReturn(false))
 	c.Check(len(callsIn(mlc, false, excl)) > 0, rule, "exclusive labels in "+fnName(mlc), "a store carrying an exclusive label matches only constraints that name that label", P.pos(mlc.Pos()), "")
+	// … "name that label": the search through the constraints compares each constraint's key with the key of the
+	// exclusive label the store carries (any other test — "some constraint names an exclusive label" — lets a store
+	// with two exclusive labels through a rule that names one of them)
+	{
+		keyF := P.Field(plc, "LabelConstraint", "Key")
+		lblKey := F(P.Method("github.com/pingcap/kvproto/pkg/metapb", "StoreLabel", "GetKey"))
+		named := false
+		for _, f := range append([]*ssa.Function{mlc}, mlc.AnonFuncs...) {
+			if hasComparison(f, "== !=", func(v ssa.Value) bool { return derivesFrom(v, func(w ssa.Value) bool { return fieldOfField(strip(w)) == keyF || isLoadOf(w, keyF) }, 2) },
+				func(v ssa.Value) bool { return derivesFrom(v, resultOfCall(lblKey), 3) }) {
+				named = true
+			}
+		}
+		c.Check(named, rule, "exclusive label looked up by its key in "+fnName(mlc), "the constraints are searched for one whose key equals the key of the store's exclusive label", P.pos(mlc.Pos()), "no comparison of a constraint's Key with the label's key")
+	}
 	ms := F(P.Method(plc, "LabelConstraint", "MatchStore"))
 	okMS := false
 	for _, f := range append([]*ssa.Function{mlc}, mlc.AnonFuncs...) {
